@@ -509,7 +509,7 @@ func (e *Env) atom(a string) (string, types.Type, error) {
 	if strings.HasPrefix(a, "phi:") || strings.HasSuffix(strings.SplitN(a, ".", 2)[0], "@0") || (strings.Contains(a, ":") && !strings.HasPrefix(a, ":")) {
 		return "", nil, fmt.Errorf("%s is not in scope here", a)
 	}
-	if goIdentRe.MatchString(a) {
+	if goIdentRe.MatchString(a) || (strings.HasPrefix(a, "*") && len(a) > 1 && goIdentRe.MatchString(strings.SplitN(a[1:], ".", 2)[0])) {
 		// looks like a Go variable but is none here: an error, not an SMT symbol
 		return "", nil, fmt.Errorf("%s is not in scope here", a)
 	}
@@ -880,6 +880,30 @@ func (f *Frame) lookupLocal(name string) (SV, bool) {
 		}
 		for n := range amb {
 			delete(f.namedVals, n)
+		}
+		// a variable that lives in memory (address-taken or an array): its storage is the variable, whatever values
+		// were also recorded for it; two different storages of one name (shadowing) stay ambiguous
+		addr := map[string]ssa.Value{}
+		addrAmb := map[string]bool{}
+		for _, b := range f.fn.Blocks {
+			for _, ins := range b.Instrs {
+				if d, ok := ins.(*ssa.DebugRef); ok && d.IsAddr && d.Object() != nil {
+					if al, isAlloc := d.X.(*ssa.Alloc); isAlloc {
+						n := d.Object().Name()
+						if prev, ok := addr[n]; ok && prev != al {
+							addrAmb[n] = true
+						}
+						addr[n] = al
+					}
+				}
+			}
+		}
+		for n, al := range addr {
+			if addrAmb[n] {
+				delete(f.namedVals, n)
+			} else if amb[n] {
+				f.namedVals[n] = al
+			}
 		}
 	}
 	if v, ok := f.namedVals[name]; ok {
